@@ -430,7 +430,7 @@ fn sweep(p: &ops::Profile, lo: usize, hi: usize, verbose: bool, nt_file: Option<
 			return 2;
 		}
 	};
-	for (c, f) in p.opens.iter().map(|(_, c)| (c, 0)).chain(p.opens_sized.iter().map(|(_, c)| (c, 1))) {
+	for (c, f) in p.opens.iter().map(|(_, c)| (c, 0)).chain(p.opens_sized.iter().map(|(_, c)| (c, 1))).chain(p.opens_gather.iter().map(|(_, c)| (c, 2))) {
 		if fx.file(*c, f).is_none() || !c.available() {
 			eprintln!("MACHINERY: codec {c:?} of profile {} is not compiled into this build", p.name);
 			return 2;
